@@ -21,15 +21,36 @@ FIRST_WAVE_MISSED = {
     "C19_a": "harness error (service-order choice out of range) after fin/rst operations became pairable: impossible orders are skipped",
     "C19_b": "same harness error as C19_a",
 }
+FIRST_WAVE_MISSED.update({
+    "C01_c": "every frame arrived in one piece: the probe now also arrives as two TCP segments (header cut, payload cut) with another client's frame between them",
+    "C01_d": "one manager per process: a second manager instance with its own population runs next to the explored one (state shared between instances shows up)",
+    "C03_d": "control requests came only from freshly connected modules: SUBSCRIBE / UNSUBSCRIBE / PAUSE / RESUME / CONNECT / SET_NAME / READY are now also sent from modules that already hold subscriptions, are subscribed to all, or are loggers",
+    "C04_c": "aliases had the same target in every program of one process: one alias now changes its target from program to program",
+    "C05_d": "every module sent CONNECT first: a client that publishes before CONNECT (and connects later) was added",
+    "C06_c": "reconnects used fresh Client objects: the same dynamic-id Client objects now reconnect after losing their connection",
+    "C07_c": "no departure happened right after a zero-length frame of another client: added",
+    "C08_d": "the virtual clock stood still inside one read_message call: a clock that advances with every reading was added (timeout budgets run out while unsubscribed frames are skipped)",
+    "C02_c": "the client's socket was empty when an operation was checked: every type is now in flight (forwarded, unread) at the moment of the checked operation",
+    "C11_c": "message definitions were never used as field types in the layout alphabet: added (M1/M2/M4 and arrays of them)",
+    "C11_d": "compiler options in the file were only exercised through compile(): the command line entry point is now run with AUTO_PAD / VALIDATE_ALIGNMENT given in the file and on the command line",
+    "C16_c": "both runs named the root file by an absolute path: the second run now uses a relative path from the directory above the sources",
+    "C18_c": "the MESSAGE_TRAFFIC listener was always there from the start: a listener that subscribes late was added",
+    "C18_d": "a report that never comes was not noticed: reports are now counted per timer step",
+    "C19_c": "sender and logger were always writable in the serving round: non-writable sender / logger subsets were added to the pair operations",
+    "C19_d": "descriptor numbers were never reused: NET now hands out the lowest free descriptor as the kernel does, and a leave-then-connect sequence reuses one",
+    "C10_c": "first run: the patch no longer applied after the timecode-header repair touched the same lines; ported to the repaired tree (patch_head.diff) and caught",
+})
+NEUTRALIZED = {"C17_b": "the change re-ordered the two Event operations of the hand-off; the second data-logger repair made the pair atomic under a lock, so the re-ordering no longer breaks the property (the demonstration passes on the repaired tree)"}
 rows = []
-for d in sorted(glob.glob(os.path.join(HERE, "seeded", "*_[ab]"))):
+for d in sorted(glob.glob(os.path.join(HERE, "seeded", "*_[abcd]"))):
     sid = os.path.basename(d)
     ev = json.load(open(os.path.join(d, "eval.json"))) if os.path.exists(os.path.join(d, "eval.json")) else {}
     notes = open(os.path.join(d, "notes.md")).read() if os.path.exists(os.path.join(d, "notes.md")) else ""
     first = " ".join(l.strip() for l in notes.splitlines() if l.strip() and not l.startswith("#"))[:500]
     prop = sid.split("_")[0]
     checks = ev.get("checks", {})
-    detected = {c: (v["exit"] == 1) for c, v in checks.items()}
+    fin = ev.get("final", {})
+    detected = {prop: fin.get("exit") == 1} if fin else {c: (v["exit"] == 1) for c, v in checks.items()}
     meta = {
         "id": sid, "property": prop, "origin": "independent sub-agent given only the property text and its own scratch worktree",
         "what_and_needs": first,
@@ -37,11 +58,15 @@ for d in sorted(glob.glob(os.path.join(HERE, "seeded", "*_[ab]"))):
                       "demo_with_patch": ev.get("demo_with_patch"), "demo_without_patch": ev.get("demo_without_patch")},
         "ran": [f"tools/seedeval.py seeded/{sid} {prop}  (scratch worktree: suite + demo with/without the patch; then `git -C /repo apply`, ./vcheck {' '.join(checks) or prop} --tier quick, `git -C /repo checkout -- .`)"],
         "detected_by": {c: {"detected": v["exit"] == 1, "exit": v["exit"], "violations": v["violations"], "what": v.get("what", [])[:2], "wall_s": v.get("wall_s")} for c, v in checks.items()},
+        "final_run": {"check": prop, "tier": "quick", "patch": fin.get("patch"), "repo_head": fin.get("repo_head"), "detected": fin.get("exit") == 1, "exit": fin.get("exit"),
+                      "violations": fin.get("violations"), "what": fin.get("what", [])[:2], "wall_s": fin.get("wall_s"),
+                      "ran": f"tools/seed_recheck.py {sid}  (git -C /repo apply, ./vcheck {prop} --tier quick, git -C /repo checkout -- .)"},
+        "neutralized": NEUTRALIZED.get(sid, ""),
         "missed_in_first_run": sid in FIRST_WAVE_MISSED,
         "strengthening": FIRST_WAVE_MISSED.get(sid, ""),
     }
     json.dump(meta, open(os.path.join(d, "meta.json"), "w"), indent=1)
-    rows.append((sid, prop, "yes" if all(detected.values()) and detected else "NO", "first run missed - " + FIRST_WAVE_MISSED[sid] if sid in FIRST_WAVE_MISSED else "caught by the check as first built"))
+    rows.append((sid, prop, "n/a (neutralized)" if sid in NEUTRALIZED else "yes" if all(detected.values()) and detected else "NO", "first run missed - " + FIRST_WAVE_MISSED[sid] if sid in FIRST_WAVE_MISSED else "caught by the check as first built"))
 print("| seed | caught now | history |\n|---|---|---|")
 for sid, prop, det, hist in rows:
     print(f"| {sid} | {det} | {hist} |")
